@@ -49,7 +49,11 @@ func c20Password(r interface{ Intn(int) int }) (string, string) {
 		}
 		return string(b)
 	}
-	switch r.Intn(9) {
+	switch r.Intn(11) {
+	case 9:
+		return pick(505+r.Intn(3), alpha), "length-505..507 (line length boundary)"
+	case 10:
+		return pick(600+r.Intn(4500), alpha), "long600..5000"
 	case 0:
 		return pick(1+r.Intn(3), alpha), "short"
 	case 1:
@@ -83,6 +87,11 @@ func c20Session(c *Ctx, logger *rig.CapLogger, pass, kind string, capn, useSasl,
 	}})
 	defer s.Release()
 	switch kind {
+	case "scrub":
+		// the application wipes Config().Pass as soon as registration has been issued (the documentation allows
+		// changing it after connecting); the PASS line is still queued then: the server starts reading only afterwards
+		s.EP.Prepare(func(mc *rig.MemConn) { mc.Stall(0) })
+		s.Conn.HandleFunc(client.REGISTER, func(cc *client.Conn, l *client.Line) { cc.Config().Pass = "" })
 	case "refused":
 		s.EP.RefuseNext(nil)
 	case "writeerr":
@@ -106,6 +115,9 @@ func c20Session(c *Ctx, logger *rig.CapLogger, pass, kind string, capn, useSasl,
 			return nil, false, false
 		}
 		mc := s.EP.Last()
+		if kind == "scrub" {
+			mc.Resume()
+		}
 		switch kind {
 		case "writeerr", "eof":
 			if !waitCh(chanOf(disc)) {
@@ -242,7 +254,7 @@ func runC20(c *Ctx) {
 	total := c.Pick(4000, 100000)
 	per := total / parts
 	logger := rig.NewCapLogger(nil)
-	kinds := []string{"ok", "ok", "refused", "writeerr", "eof", "reconnect"}
+	kinds := []string{"ok", "ok", "refused", "writeerr", "eof", "reconnect", "scrub"}
 	for i := 0; i < per; i++ {
 		idx := part*per + i
 		if !c.Want("pw", idx) {
